@@ -248,7 +248,10 @@ func (r *ClientPeerRef) Send(ctx context.Context, msg []byte) (_ *signaling_rpc.
 
 			// Stream with remote was re-opened.
 			if sessionSeqno == nil || *sessionSeqno != *tkr.open {
-				txed = false
+				// If the session was re-opened without being closed, our message
+				// still occupies tkr.out and will be re-transmitted by the main
+				// routine: keep tracking it so that its ack is consumed.
+				txed = txed && tkr.out != nil && tkr.out.Seqno == seqno
 				sessionSeqno = tkr.open
 			}
 
